@@ -161,6 +161,18 @@ CHECKS = {
         "cannot distinguish them).",
         "4/C13",
     ),
+    "C02": (
+        "complete enumeration of the configuration lattice (origin x target x scatter x 2^11 coordinate subsets; "
+        "thorough) / stratified seeded sample (quick) against an independent derivability-and-formula model",
+        "Enumerated generated-input search against a reference model written from the user guide: for every "
+        "configuration, convert() must return the target equal (rtol 1e-9) to the documented formulas evaluated with "
+        "present-takes-precedence on deliberately inconsistent coordinate values, or raise exactly RuntimeError when "
+        "the target is not derivable or the energy mode is ambiguous; deduce_conversion_graph/conversion_graph fed to "
+        "transform_coords reproduces convert. Thorough tier: all 344064 configurations (exhaustive).",
+        "Trusted: vf/ref/convmodel.py (numpy, self-tested). Complete over configurations, sampled over coordinate values "
+        "(32 value sets per seed). 'Derivable' means derivable in the graph documented for that origin.",
+        "4/C02",
+    ),
 }
 
 NOT_YET = "check not built yet (work in progress; every property is planned to be claimed, see DESIGN.md section 4)"
